@@ -13,6 +13,8 @@ structure RecvOk (srw : Nat) (r : Recv) : Prop where
   sent_le : r.sentMaxStreamData ≤ r.assembler.bytesRead + srw
   read_le : r.assembler.bytesRead ≤ r.end_
   buf_le : ∀ a b, (a, b) ∈ r.assembler.buf → b ≤ r.end_
+  /-- once the final size is known nothing was received beyond it -/
+  fin_le : ∀ fo, r.finalOffset = some fo → r.end_ ≤ fo
 
 /-- receiver invariant on the receiver view -/
 structure RInvV (v : RView) : Prop where
@@ -45,7 +47,8 @@ theorem Unsat.of_rvw {s s' : State} (h : s'.rvw = s.rvw) (u : Unsat s') : Unsat 
   unfold Unsat at *; omega
 
 theorem recvOk_new (srw : Nat) : RecvOk srw (Recv.new srw) :=
-  ⟨Nat.zero_le _, by simp [Recv.new], Nat.le_refl _, by intro a b h; simp [Recv.new] at h⟩
+  ⟨Nat.zero_le _, by simp [Recv.new], Nat.le_refl _, by intro a b h; simp [Recv.new] at h,
+   by intro fo h; simp [Recv.new, Recv.finalOffset] at h⟩
 
 /-! ### range-set facts for the assembler -/
 
@@ -221,18 +224,44 @@ theorem RInv.step {s s' : State} (i : RInv s)
   · exact i.streams k r h
   · exact h
 
+/-- the final size after an accepted STREAM frame: the frame's end if it carried the FIN, else the
+    one known before -/
+theorem ingest_finalOffset {r r' : Recv} {offset len received maxData nb : Nat} {fin cl : Bool}
+    (h : r.ingest offset len fin received maxData = some (.ok (nb, cl, r'))) (fo : Nat)
+    (hf : r'.finalOffset = some fo) : (fo = offset + len ∧ fin = true) ∨ r.finalOffset = some fo := by
+  unfold Recv.ingest Recv.ingestTail at h
+  osplit h
+  all_goals
+    obtain ⟨_, _, rfl⟩ := h
+    simp only [Recv.finalOffset] at hf ⊢
+    first
+      | exact Or.inr hf
+      | (have hst := ‹r.state = _›; rw [hst]; exact Or.inr hf)
+      | (simp only [Option.some.injEq] at hf; exact Or.inl ⟨hf.symm, by simp_all⟩)
+
 /-- an accepted STREAM frame keeps the per-stream bounds -/
 theorem ingest_ok_recvOk {srw : Nat} {r r' : Recv} {offset len received maxData nb : Nat} {fin cl : Bool}
     (ok : RecvOk srw r) (h : r.ingest offset len fin received maxData = some (.ok (nb, cl, r'))) :
     RecvOk srw r' ∧ nb = offset + len - r.end_ ∧ received + nb ≤ maxData ∧ r'.stopped = r.stopped ∧
     cl = (fin && r.stopped) := by
-  rcases ingest_cases h with ⟨_, he⟩ | ⟨_, _, he⟩ | ⟨_, _, _, he⟩ | ⟨_, _, h3, h4, r'', he, e1, e2, e3, e4, e5⟩
+  have hfo := ingest_finalOffset h
+  rcases ingest_cases h with ⟨_, he⟩ | ⟨_, _, he⟩ | ⟨_, _, _, he⟩ | ⟨_, hnc, h3, h4, r'', he, e1, e2, e3, e4, e5⟩
   · contradiction
   · contradiction
   · contradiction
   · simp only [Except.ok.injEq, Prod.mk.injEq] at he
     obtain ⟨rfl, rfl, rfl⟩ := he
-    refine ⟨⟨?_, ?_, ?_, ?_⟩, rfl, h4, e3, rfl⟩
+    refine ⟨⟨?_, ?_, ?_, ?_, ?_⟩, rfl, h4, e3, rfl⟩
+    rotate_right
+    · -- the final size bounds the high-water mark
+      intro fo hf
+      rw [e1]; simp only [natMax_eq]
+      rcases hfo fo hf with ⟨rfl, hfin⟩ | hold
+      · have : ¬ (offset + len < r.end_) := fun hlt => hnc (Or.inr ⟨hfin, hlt⟩)
+        omega
+      · have h1 := ok.fin_le fo hold
+        have : ¬ (offset + len > fo) := fun hgt => hnc (Or.inl ⟨fo, hold, Or.inl hgt⟩)
+        omega
     · rw [e1, e2]; simp only [natMax_eq]; have := ok.end_le; omega
     · rw [e2, e4]; exact ok.sent_le
     · rw [e4, e1]; simp only [natMax_eq]; have := ok.read_le; omega
